@@ -492,6 +492,8 @@ class InProtocolBase(ProtocolMixin):
                                                    for x in ("tz_hr", "tz_min")]
                 if match.group("tz_hr").startswith('-'):
                     tz_min = -tz_min
+                if abs(tz_hr * 60 + tz_min) > 14 * 60 or abs(tz_min) > 59:
+                    raise ValidationError(string)  # xsd: -14:00 .. +14:00
                 tz = FixedOffset(tz_hr * 60 + tz_min, {})
                 retval = _parse_datetime_iso_match(match, tz=tz)
                 if astz is not None:
